@@ -343,7 +343,7 @@ pub fn def() -> CheckDef {
         ],
         sections: vec![
             Box::new(ReplayOnly { name: "fuzz-bytes", check: check_raw }),
-            Box::new(PropSection { name: "pipeline", rule: "datagram sequences through the handling steps", strategy, cases: (12_000, 300_000), check }),
+            Box::new(PropSection { name: "pipeline", rule: "datagram sequences through the handling steps", strategy, cases: (60_000, 800_000), check }),
             Box::new(EnumSection { name: "sockets", rule: "real services on loopback multicast", enumerate: enum_socket, check: check_socket, exhaustive: false }),
         ],
     }
